@@ -68,7 +68,7 @@ DBusValidity _dbus_validate_body_with_reason (const DBusString *sig, int sig_sta
 dbus_bool_t _dbus_header_get_field_basic (DBusHeader *h, int field, int type, void *value)
 { if (field == DBUS_HEADER_FIELD_UNIX_FDS) { *(dbus_uint32_t *) value = fr[cur].nfds; return fr[cur].nfds != 0; } return 0; }
 dbus_bool_t _dbus_header_get_field_raw (DBusHeader *h, int field, const DBusString **str, int *pos) { static DBusString s; *str = &s; *pos = 0; return 0; }
-void *_dbus_memdup (const void *mem, size_t n) { void *p = malloc (16 * sizeof (int)); VF_ASSUME (p != 0); return p; }
+void *_dbus_memdup (const void *mem, size_t n) { int *p = malloc (16 * sizeof (int)); const int *q = mem; VF_ASSUME (p != 0); VF_ASSERT (n <= 4 * sizeof (int), "at most 4 descriptors per frame (harness bound)"); p[0] = q[0]; p[1] = q[1]; p[2] = q[2]; p[3] = q[3]; return p; }
 void dbus_free (void *p) { if (p) free (p); }
 void *dbus_malloc0 (size_t n) { void *p; VF_ASSERT (n == sizeof (DBusMessage), "only messages are allocated"); p = calloc (1, sizeof (DBusMessage)); VF_ASSUME (p != 0); return p; }
 dbus_int32_t _dbus_atomic_inc (DBusAtomic *a) { return a->value++; }
@@ -89,7 +89,7 @@ static int n_unrefs;
 
 void harness (void)
 {
-  static DBusMessageLoader loader; static int fdarr[16];
+  static DBusMessageLoader loader; static int fdarr[16] = { 100, 101, 102, 103, 104, 105, 106, 107, 108, 109, 110, 111, 112, 113, 114, 115 };   /* descriptor identities: the i-th descriptor received */
   int i, total = 0, tail, len0, q, expect_q = 0, expect_len, stopped = 0, corrupt_expected = 0, oom_expected = 0;
   unsigned fds0, expect_fds;
   dbus_bool_t ok;
@@ -130,6 +130,21 @@ void harness (void)
     VF_FINDING (loader.n_unix_fds == expect_fds, "F10-loader-oom-after-fds-moved");
   else
     VF_ASSERT (loader.n_unix_fds == expect_fds, "exactly the announced descriptors move from the loader to the messages");
+  /* identities, not only counts: message k owns the next announced descriptors in arrival order, the loader keeps the rest in order */
+  if (!(oom_expected && oom_copy))
+    {
+      DBusList *ml = _dbus_list_get_first_link (&loader.messages); unsigned off = 0, k2;
+      for (i = 0; i < FRAMES; i++)
+        if (i < expect_q && ml != 0)
+          {
+            DBusMessage *mm = ml->data;
+            VF_ASSERT (mm->n_unix_fds == fr[i].nfds, "each message owns exactly the number of descriptors it announced");
+            for (k2 = 0; k2 < 4; k2++) if (k2 < fr[i].nfds) VF_ASSERT (mm->unix_fds[k2] == (int) (100 + off + k2), "each message gets the descriptors that arrived for it, in order");
+            off += fr[i].nfds; ml = _dbus_list_get_next_link (&loader.messages, ml);
+          }
+#define VF_LEFT(K) if ((K) < loader.n_unix_fds) VF_ASSERT (loader.unix_fds[K] == (int) (100 + off + (K)), "descriptors not yet claimed stay in the loader in arrival order (each is handed out or closed exactly once)")
+      VF_LEFT (0); VF_LEFT (1); VF_LEFT (2); VF_LEFT (3); VF_LEFT (4); VF_LEFT (5); VF_LEFT (6); VF_LEFT (7);
+    }
   VF_ASSERT ((ok != 0) == !oom_expected || corrupt_expected, "out of memory is reported as such");
   /* stickiness */
   if (loader.corrupted)
